@@ -443,6 +443,7 @@ type c09fix struct {
 	domains   map[string]eth2p0.Domain
 	verified  map[string]bool          // memo of independent verifications
 	clDomains map[string]eth2p0.Domain // healthy answers of the fault-scriptable client (zz_verif_c09_seq_test.go)
+	bvals     []c09val                 // validators of the batch dimension (zz_verif_c09_batch_test.go)
 	strict    bool
 }
 
@@ -1218,7 +1219,10 @@ func TestVerifC09(t *testing.T) {
 		var m struct {
 			Mode string `json:"mode"`
 		}
-		if err := r.ReplayCase(&m); err == nil && m.Mode != "" {
+		if err := r.ReplayCase(&m); err == nil && m.Mode == "batch" {
+			c09replayBatch(r, f, types)
+			return
+		} else if err == nil && m.Mode != "" {
 			c09replayX(r, f, types)
 			return
 		}
@@ -1287,4 +1291,7 @@ func TestVerifC09(t *testing.T) {
 
 	// operation sequences on one Aggregator instance and beacon-node fault scripts (zz_verif_c09_seq_test.go)
 	c09runX(r, f, types, thorough)
+
+	// number of validators per call (zz_verif_c09_batch_test.go)
+	c09runBatch(r, f, types, thorough)
 }
